@@ -33,7 +33,7 @@ type c07Plan struct {
 	Cfg         verifsim.Config `json:"cfg"`
 	Shape       string          `json:"shape"` // alloc | db
 	Allocators  int             `json:"allocators"`
-	Tasks       [][]c07Op       `json:"tasks"`      // task i belongs to allocator/node i % Allocators
+	Tasks       [][]c07Op       `json:"tasks"`        // task i belongs to allocator/node i % Allocators
 	IncrFreqMs  int             `json:"incr_freq_ms"` // MaxSequenceIncrFrequency: 0 = never grow the batch
 	ReleaseWait int             `json:"release_wait_ms"`
 	Faulty      bool            `json:"faulty"`
@@ -169,11 +169,11 @@ func c07Shrink(raw json.RawMessage) []json.RawMessage {
 
 // c07Ledger accumulates what the storage seam saw.
 type c07Ledger struct {
-	mu        sync.Mutex
-	published map[uint64]int    // number -> times published as unused
-	carried   map[uint64]string // number -> "key@rev" that carried it as its sequence
-	carriedU  map[uint64]bool   // numbers carried in an unused_sequences list
-	exempt    map[uint64]bool   // numbers whose publishing write was the faulted operation / unknown-outcome writes
+	mu             sync.Mutex
+	published      map[uint64]int    // number -> times published as unused
+	carried        map[uint64]string // number -> "key@rev" that carried it as its sequence
+	carriedU       map[uint64]bool   // numbers carried in an unused_sequences list
+	exempt         map[uint64]bool   // numbers whose publishing write was the faulted operation / unknown-outcome writes
 	faultedPublish bool
 	unknownWrite   bool
 	incrFault      bool
@@ -257,8 +257,8 @@ func (l *c07Ledger) observe(o simstore.OpInfo) {
 			return
 		}
 		var sd struct {
-			Sequence uint64   `json:"sequence"`
-			Unused   []uint64 `json:"unused_sequences"`
+			Sequence uint64          `json:"sequence"`
+			Unused   []uint64        `json:"unused_sequences"`
 			Rev      json.RawMessage `json:"rev"`
 		}
 		if json.Unmarshal(raw, &sd) != nil || sd.Sequence == 0 {
@@ -379,10 +379,10 @@ func c07RunAlloc(env *verifsim.Env, p *c07Plan) *verifsim.Violation {
 	}
 
 	type handed struct {
-		n      uint64
-		by     string
-		gtOf   uint64
-		isGT   bool
+		n    uint64
+		by   string
+		gtOf uint64
+		isGT bool
 	}
 	var hmu sync.Mutex
 	var all []handed
